@@ -40,6 +40,8 @@ func init() { register("C13", c13) }
 //	          pxd_recs = records of ReadMultiTrees(pxdoc, phyloxml); pxd_px(+_err,_recs) = WritePhyloXML of these records and
 //	          its records; pxd_nwk = Newick() of every tree read, one per line, pxd_nwk_recs its records;
 //	          pxd_nexus(+_err,_recs) = WriteNexus of the records read
+//	nxdoc (optional, in the case): the same trees as a Nexus file with several TREES blocks, rendered by the generator:
+//	          nxd_recs = records of ReadMultiTrees(nxdoc, nexus)
 //	first   : for newick (src), nexus, phyloxml, nextstrain: ((fmt f) (first REC) (head REC|()))
 //	          = utils.ReadTreeReader against the first record of utils.ReadMultiTrees
 //	REC     : ((id n) (err msg)) | ((id n) (err "") (nwk text) (tree T) (audit (...)))
@@ -227,6 +229,10 @@ func c13run(c *Sexp) *Sexp {
 	}
 	if hasDoc {
 		first.List = append(first.List, c13first("phyloxml document", pxdoc, utils.FORMAT_PHYLOXML))
+	}
+	if v := c.Get("nxdoc"); v != nil && !v.IsList {
+		add("nxd_recs", c13multi(v.Atom, utils.FORMAT_NEXUS))
+		first.List = append(first.List, c13first("nexus file with several TREES blocks", v.Atom, utils.FORMAT_NEXUS))
 	}
 	add("first", first)
 	return obs
